@@ -17,6 +17,7 @@ import (
 	"github.com/prometheus/alertmanager/alert"
 	"github.com/prometheus/alertmanager/config"
 	"github.com/prometheus/alertmanager/eventrecorder"
+	"github.com/prometheus/alertmanager/internal/verif/sched"
 	"github.com/prometheus/alertmanager/marker"
 	"github.com/prometheus/alertmanager/notify"
 	"github.com/prometheus/alertmanager/provider/mem"
@@ -34,11 +35,15 @@ type vStage struct {
 	mu    sync.Mutex // real mutex on purpose: the stage is environment, not code under test
 	epoch time.Time
 	out   []vDelivery
+	yield bool // the delivery itself is a scheduling point (a receiver that answers late)
 }
 
 func (r *vStage) Exec(ctx context.Context, _ *slog.Logger, alerts ...*alert.Alert) (context.Context, []*alert.Alert, error) {
 	gk, _ := notify.GroupKey(ctx)
 	id, _ := notify.AggrGroupID(ctx)
+	if r.yield {
+		sched.Yield("deliver")
+	}
 	now := time.Now()
 	d := vDelivery{At: now.Sub(r.epoch), GroupKey: gk, AggrID: id}
 	for _, a := range alerts {
